@@ -771,6 +771,9 @@ fn run_soak(calls: u64) -> Option<SoakResult> {
 struct MiriReplay {
     engine: String,
     property: String,
+    /// program arguments of a generated scenario (`gen doc0 doc1 w0 w1`); empty for built-in ones
+    #[serde(default)]
+    gen_args: Vec<String>,
     scenario: usize,
     miri_seed: u64,
     kind: String,
@@ -778,6 +781,8 @@ struct MiriReplay {
 }
 
 struct MiriOutcome {
+    /// scenario number (>= 100) -> program arguments of a generated scenario
+    gen_args: BTreeMap<usize, Vec<String>>,
     ok_runs: u64,
     /// (scenario, failing seed, kind, excerpt) - kind: race | result | other
     failures: Vec<(usize, u64, String, String)>,
@@ -788,13 +793,18 @@ struct MiriOutcome {
 fn miri_flags(extra: &str) -> String {
     // tree borrows: the `pretty` dependency's arena trips Stacked Borrows in purely sequential code
     // (not typstyle code and unrelated to C17); data-race detection is unaffected
-    format!("-Zmiri-preemption-rate=0.1 -Zmiri-tree-borrows {}", extra)
+    format!("-Zmiri-preemption-rate=0.1 -Zmiri-tree-borrows -Zmiri-ignore-leaks {}", extra)
 }
 
 fn run_miri(scenario: usize, flags: &str) -> Result<String, String> {
+    run_miri_args(&[scenario.to_string()], flags)
+}
+
+fn run_miri_args(prog_args: &[String], flags: &str) -> Result<String, String> {
     let dir = verif_dir().join("miri-lane");
     let out = Command::new("cargo")
-        .args(["+nightly", "miri", "run", "--offline", "--", &scenario.to_string()])
+        .args(["+nightly", "miri", "run", "--offline", "--"])
+        .args(prog_args)
         .current_dir(&dir)
         .env("MIRIFLAGS", flags)
         .env("CARGO_TARGET_DIR", verif_dir().join(".target/miri"))
@@ -820,11 +830,35 @@ fn classify_miri(text: &str) -> Option<(String, String)> {
     None
 }
 
-fn miri_lane(seeds_per_scenario: u64, scenarios: &[usize]) -> MiriOutcome {
+fn miri_lane(seeds_per_scenario: u64, scenarios: &[usize], gen_base: u64) -> MiriOutcome {
     let start = Instant::now();
-    let mut o = MiriOutcome { ok_runs: 0, failures: vec![], unavailable: None, wall_s: 0.0 };
+    let mut o = MiriOutcome { gen_args: BTreeMap::new(), ok_runs: 0, failures: vec![], unavailable: None, wall_s: 0.0 };
     for &sc in scenarios {
-        let text = match run_miri(sc, &miri_flags(&format!("-Zmiri-many-seeds=0..{}", seeds_per_scenario))) {
+        // scenarios >= 100: two small documents from the seeded generator, two widths
+        let prog_args: Vec<String> = if sc >= 100 {
+            let mut rng = vsim::rng::Rng::stream(mix(gen_base, sc as u64), "miri-gen");
+            let mut docs: Vec<String> = Vec::new();
+            let mut k = 0u64;
+            while docs.len() < 2 && k < 200 {
+                k += 1;
+                let sd = mix(gen_base ^ sc as u64, k);
+                let d = vsim::gen::DocGen::new(sd, sd).with_loose(0.5).document(rng.range(1, 3));
+                if d.len() <= 220 && d.is_ascii() && !vsim::oracle::is_erroneous(&d) {
+                    docs.push(d);
+                }
+            }
+            if docs.len() < 2 {
+                continue;
+            }
+            let w = [*rng.pick(vsim::coresim::workload::WIDTHS), *rng.pick(vsim::coresim::workload::WIDTHS)];
+            let a = vec!["gen".to_string(), docs[0].clone(), docs[1].clone(), w[0].to_string(), w[1].to_string()];
+            o.gen_args.insert(sc, a.clone());
+            a
+        } else {
+            vec![sc.to_string()]
+        };
+        let seeds = if sc >= 100 { (seeds_per_scenario / 4).max(4) } else { seeds_per_scenario };
+        let text = match run_miri_args(&prog_args, &miri_flags(&format!("-Zmiri-many-seeds=0..{}", seeds))) {
             Ok(t) => t,
             Err(e) => {
                 o.unavailable = Some(e);
@@ -832,6 +866,7 @@ fn miri_lane(seeds_per_scenario: u64, scenarios: &[usize]) -> MiriOutcome {
             }
         };
         let ok = text.lines().filter(|l| l.contains("miri-lane scenario") && l.trim_end().ends_with("ok")).count() as u64;
+        let _ = seeds;
         o.ok_runs += ok;
         let failing_seed = text.lines().find_map(|l| l.trim().strip_prefix("FAILING SEED: ").and_then(|x| x.trim().parse::<u64>().ok()));
         match (failing_seed, classify_miri(&text)) {
@@ -936,10 +971,10 @@ fn cmd_run(args: &[String]) -> i32 {
     // where a race inside code that has no hook point can hide), 16 seeds; thorough: all four
     // scenarios, 32 seeds each
     let miri_seeds: u64 = arg_value(args, "--miri-seeds").and_then(|x| x.parse().ok()).unwrap_or(if tier == "thorough" { 32 } else { 16 });
-    let miri_scenarios: Vec<usize> = if tier == "thorough" { vec![0, 1, 2, 3] } else { vec![3] };
+    let miri_scenarios: Vec<usize> = if tier == "thorough" { vec![0, 1, 2, 3, 100, 101, 102, 103, 104, 105, 106, 107] } else { vec![3] };
     let mut miri_json = json!({"run": false, "note": "lane B3 switched off (--miri-seeds 0)"});
     if miri_seeds > 0 {
-        let m = miri_lane(miri_seeds, &miri_scenarios);
+        let m = miri_lane(miri_seeds, &miri_scenarios, base);
         let mut m_reported = Vec::new();
         for (sc, seed, kind, ex) in &m.failures {
             if kind == "other" {
@@ -948,7 +983,7 @@ fn cmd_run(args: &[String]) -> i32 {
             let dir = verif_dir().join("replays");
             let _ = std::fs::create_dir_all(&dir);
             let path = dir.join(format!("C17-V17.5-miri-{}-s{}-seed{}.json", kind, sc, seed));
-            let rp = MiriReplay { engine: "miri".into(), property: "C17".into(), scenario: *sc, miri_seed: *seed, kind: kind.clone(), excerpt: ex.clone() };
+            let rp = MiriReplay { engine: "miri".into(), property: "C17".into(), gen_args: m.gen_args.get(sc).cloned().unwrap_or_default(), scenario: *sc, miri_seed: *seed, kind: kind.clone(), excerpt: ex.clone() };
             let _ = std::fs::write(&path, serde_json::to_string_pretty(&rp).unwrap());
             violations += 1;
             println!("VIOLATION property=C17 replay={}", path.display());
@@ -1112,7 +1147,8 @@ fn cmd_replay(args: &[String]) -> i32 {
     }
     if let Ok(mr) = serde_json::from_str::<MiriReplay>(&text) {
         if mr.engine == "miri" {
-            return match run_miri(mr.scenario, &miri_flags(&format!("-Zmiri-seed={}", mr.miri_seed))) {
+            let pa = if mr.gen_args.is_empty() { vec![mr.scenario.to_string()] } else { mr.gen_args.clone() };
+            return match run_miri_args(&pa, &miri_flags(&format!("-Zmiri-seed={}", mr.miri_seed))) {
                 Ok(t) => match classify_miri(&t) {
                     Some((kind, ex)) if kind != "other" => {
                         println!("VIOLATION property=C17 replay={}", path);
